@@ -232,3 +232,5 @@ def r10_6(cx):
 
 
 RULES = [('R10.1', r10_1), ('R10.2', r10_2), ('R10.3', r10_3), ('R10.4', r10_4), ('R10.5', r10_5), ('R10.6', r10_6)]
+RULES.append(('R10.7', scan_rule(('owning_iovec::byte_arena::', 'owning_iovec::global_deque::'))))
+FLOORS['R10.7'] = 1
